@@ -1,7 +1,9 @@
 """C02 — detailed placement keeps the placement legal at every exposed state."""
+GEN = ["GeomFns"]
 VARIANT = "san"
 RULE = "see stats"
 PARTIAL = [
+    "geometry_layer_translated: the shared Rect / Cell geometry this model is written in (Rectangle ctor, isTurn, x / y / orientation / isFixed / placedWidth / placedHeight / placement and the loop of Circuit::rowHeight, equal for every circuit) is regenerated from the clang AST of the C++ function bodies on every run (Gen/GeomFns.lean) and proved equal to the hand-written definitions; the translator's representation map (array-of-fields <-> Cell record, rows_ <-> list of Row) is stated, not derived; this is a tie, not a clause of the property",
     "clause 'never fails on a circuit that legalization alone accepts': proved for the constructor, with no side condition, for "
     "every result of the *model's* legalization (`constructor_ok_after_legalize`: C01 domain + `legalizeWith` returns c' => "
     "`fromIspdCircuit c'` returns normally with Inv and all cells placed; uses C01's `legalizeWith_legal` and C04's "
@@ -59,6 +61,7 @@ LEVEL_TEXT = ("Lean 4 theorems over an executable model of DetailedPlacement's d
               "after legalize succeeded; thorough tier: exhaustive enumeration of all feasible swap/insert sequences of length <= 4 "
               "on small instances through the real API")
 LEVEL_NOTE = ("Trusted: Lean kernel (propext/Classical.choice/Quot.sound), the hand-written model's tie to the code (differential, "
-              "bounded by the generator), lemon NetworkSimplex, boost::polygon via the Freespace model, the harness' legality oracle.")
+              "bounded by the generator), tools/translate.py + clang-14 AST for Gen/GeomFns (shared geometry layer and Circuit::rowHeight, proved "
+              "equal to the hand-written ones: geometry_layer_translated), lemon NetworkSimplex, boost::polygon via the Freespace model, the harness' legality oracle.")
 TECHNIQUE = "Lean 4 proof (invariant over move histories) + primitives correspondence + history replay + end-to-end legality oracle"
 TIMEOUT = {"quick": 3600, "thorough": 6 * 3600, "search": 3 * 3600}
